@@ -48,6 +48,7 @@ type env struct {
 	valsetMod valset.AppModule
 	palomaMod paloma.AppModule
 	metrixMod metrix.AppModule
+	infos     [][]*valsettypes.ExternalChainInfo // per validator: what it registered (second round: re-registered with / without the MEV trait)
 }
 
 func (e *env) at(h int64) sdk.Context {
@@ -107,6 +108,7 @@ func newEnv(t ginkgo.FullGinkgoTInterface, powers []int64) (*env, error) {
 		if err := f.ValsetKeeper.AddExternalChainInfo(ctx, op, infos); err != nil {
 			return nil, err
 		}
+		e.infos = append(e.infos, infos)
 	}
 	e.tre = treasurykeeper.NewMsgServerImpl(f.TreasuryKeeper)
 	e.cons = consensuskeeper.NewMsgServerImpl(f.ConsensusKeeper)
